@@ -17,7 +17,9 @@
 //     jobs that need two workers at once: all must come back (deadlock detection).
 #include <verif.hpp>
 
+#include <iostream>
 #include <memory>
+#include <stdexcept>
 
 #include <tlx/thread_pool.hpp>
 
@@ -54,6 +56,8 @@ struct World {
     std::atomic<bool> rendezvous_failed{ false };
     tlx::ThreadPool* pool = nullptr;
     Rng* rng = nullptr;
+    bool throwing_jobs = false;            // every fifth job ends by throwing a std::runtime_error
+    std::atomic<unsigned> thrown{ 0 };
     explicit World(size_t cap) : jobs(cap) {}
 };
 
@@ -76,6 +80,8 @@ static void spawn(World& w, int depth, unsigned fanout, unsigned pauses) {
         if (depth > 0)
             for (unsigned c = 0; c < fanout; ++c) spawn(w, depth - 1, fanout, pauses ? pauses - 1 : 0);
         me.end = dsched::tick();
+        // the pool catches std::exception from a job and goes on: such a job has run like any other
+        if (w.throwing_jobs && id % 5 == 2) { w.thrown.fetch_add(1, std::memory_order_relaxed); throw std::runtime_error("job failed on purpose"); }
     });
     guard.reset();
     j.enq_ret = dsched::tick();
@@ -121,6 +127,8 @@ static void scenario_graph(Rng& rng) {
     g_scenario = "graph: pool(" + std::to_string(p) + "), " + std::to_string(rounds) + " round(s), " + std::to_string(externals) + " external enqueuer(s), " + std::to_string(waiters_extra) + " extra waiter(s), end mode " + std::to_string(end_mode);
     World w(400);
     w.rng = &rng;
+    w.throwing_jobs = rng.chance(1, 4);
+    if (w.throwing_jobs) g_scenario += ", every fifth job throws";
     std::vector<Waiter> waits;
     std::vector<Waiter> extra_waits(rounds);
     dsched::Sched& S = dsched::S();
@@ -192,6 +200,7 @@ static void scenario_graph(Rng& rng) {
     }
     dsched::Stats st = S.end();
     verif::count("pool_scenarios");
+    verif::count("jobs_that_threw", w.thrown.load());
     if (g_serial) { verif::distinct(st.hash); verif::count("schedule_steps", st.steps); verif::count("waits_that_blocked", st.cv_blocks); verif::count("notifies_without_waiter", st.notifies_without_waiter); }
     if (verif::case_failed()) return;
     size_t n = std::min(w.next.load(std::memory_order_relaxed), w.jobs.size());
@@ -357,7 +366,13 @@ static void run_case(Rng& rng, uint64_t) {
     }
 }
 
+//! the pool reports a job's exception on std::cerr; the text is of no interest here (and stderr is where the
+//! driver looks for sanitizer reports), so it is swallowed
+struct NullBuf : std::streambuf { int overflow(int c) override { return c; } std::streamsize xsputn(const char*, std::streamsize n) override { return n; } };
+static NullBuf* g_nullbuf = new NullBuf;   // never destroyed: std::cerr is flushed once more at exit
+
 static void init() {
+    std::cerr.rdbuf(g_nullbuf);
     verif::property_id() = "C10";
     g_serial = verif::param("mode", "serial") == "serial";
     dsched::S().mode = g_serial ? dsched::SERIAL : dsched::JITTER;
